@@ -270,13 +270,41 @@ def process_level(ctx, mod, demod):
     ctx.coverage["pipeline_runs"] = len(cfgs)
 
 
+def eof_probe(ctx):
+    """F13: m17-demod's `while (std::cin)` loop runs once more after the failed read and hands the demodulator a sample that
+    was not written in that iteration.  For non-empty input the stack slot still holds the previous sample (defined memory as
+    far as any tool can tell); for EMPTY input it was never written, which valgrind's memcheck reports on an -O0 build."""
+    import shutil
+    if not shutil.which("valgrind"):
+        ctx.notes.append("valgrind not available: the end-of-input probe (F13) was not run")
+        return
+    exe = ctx.workdir / "m17-demod-O0"
+    cmd = ["g++", "-std=c++20", "-O0", "-g", "-DNDEBUG", f"-I{ctx.repo}/include/m17cxx", f"-I{ctx.repo}/include", f"-I{VERIF}/harness/shim",
+           str(ctx.repo / "apps" / "m17-demod.cpp"), "-o", str(exe), "-lcodec2", "-lboost_program_options", "-pthread"]
+    rc, out = sh(cmd, timeout=900)
+    if rc != 0:
+        ctx.broken.append(("correspondence", "app-build:m17-demod-O0", out[-800:]))
+        return
+    rc, out = sh(f"valgrind -q --track-origins=yes --error-exitcode=99 {exe} -l < /dev/null", timeout=600)
+    ctx.case("eof-probe-empty-input")
+    ctx.count("eof-probe")
+    if "uninitialised" in out and "m17-demod.cpp" in out:
+        ctx.violation("demod-eof-indeterminate-sample",
+                      "m17-demod feeds the demodulator one more sample after the failed read at end of input; the int16_t was not written in that iteration "
+                      "(empty input: never written at all - valgrind memcheck, -O0 build)",
+                      {"command": "valgrind -q --track-origins=yes m17-demod(-O0 -g) -l < /dev/null", "exit": rc, "valgrind": out[:1500],
+                       "note": "for non-empty input the slot holds the previous sample, which is then demodulated twice; candidate fix patches/fix-demod-eof-sample.diff"})
+
+
 def run(ctx):
     t0 = time.time()
     with cf.ThreadPoolExecutor(max_workers=4) as ex:
         fa = ex.submit(C07.build_harnesses, ctx, ("c07_app",))
         fm = ex.submit(build_app, ctx, "m17-mod")
         fd = ex.submit(build_app, ctx, "m17-demod")
+        fp = ex.submit(eof_probe, ctx)
         app, mod, demod = fa.result().get("c07_app"), fm.result(), fd.result()
+        fp.result()
     ctx.log(f"builds {time.time() - t0:.1f}s")
     if app and getattr(ctx, "spec", None):
         handler_level(ctx, app)
